@@ -227,7 +227,13 @@ func (r *Transport) writeLoop() {
 					r.mu.Lock()
 					if reconnectErr := r.reconnect(tr); reconnectErr != nil {
 						r.mu.Unlock()
-						writeOrDone(r.ctx, writeRes{err: fmt.Errorf("reconnect cause[%v]: %w", err, reconnectErr)}, r.writeResCh[data.id])
+						r.writeResMu.RLock()
+						resCh := r.writeResCh[data.id]
+						r.writeResMu.RUnlock()
+						writeOrDone(r.ctx, writeRes{err: fmt.Errorf("reconnect cause[%v]: %w", err, reconnectErr)}, resCh)
+						// the redial budget is exhausted: nothing serves the queue any more, so
+						// pending and later Reads and Writes must fail instead of waiting for ever
+						r.cancel()
 						return
 					}
 					r.mu.Unlock()
@@ -269,6 +275,7 @@ func (r *Transport) readLoop() {
 				if reconnectErr := r.reconnect(tr); reconnectErr != nil {
 					r.mu.Unlock()
 					writeOrDone(r.ctx, &readRes{err: fmt.Errorf("reconnect cause[%v]: %w", err, reconnectErr)}, r.readResCh)
+					r.cancel()
 					return
 				}
 				r.mu.Unlock()
